@@ -29,7 +29,7 @@ SPEC = {
     },
     "floors": {
         "quick": {
-            "evaluations": 400_000, "distinct_nontrivial": 1500, "lattice_points": 300_000,
+            "evaluations": 8_000_000, "distinct_nontrivial": 50_000, "lattice_points": 10_000_000,
             "plans_where_reconcile_dropped_parts": 10_000, "single_note_exact_funding_cases": 1000,
             "plans_reaching_cap": 10_000, "plans_crossing_fee_step": 5000, "residual_bound_checked": 10_000,
             "fee_free_digit_expansion_checked": 10_000, "max_money_scale_fee_or_buffer": 1000,
@@ -44,7 +44,7 @@ SPEC = {
             "build_profiles_exercised": 2,
         },
         "thorough": {
-            "evaluations": 20_000_000, "distinct_nontrivial": 3000, "lattice_points": 300_000,
+            "evaluations": 50_000_000, "distinct_nontrivial": 100_000, "lattice_points": 10_000_000,
             "plans_where_reconcile_dropped_parts": 100_000, "single_note_exact_funding_cases": 10_000,
             "plans_reaching_cap": 100_000, "plans_crossing_fee_step": 50_000, "residual_bound_checked": 100_000,
             "oracle_answers_with_product_above_u64": 10_000,
